@@ -254,6 +254,7 @@ struct Rw<'a> {
     fold_loops: bool,
     for_range: bool,
     for_iter: bool,
+    iter_model: Vec<String>,
     subst: Vec<(String, String)>,
     sections: &'a BTreeMap<String, String>,
     rules: RefCell<BTreeMap<String, usize>>,
@@ -441,6 +442,18 @@ impl<'a> Rw<'a> {
             "debug" | "trace" | "info" | "warn" | "error" if stmt_pos => {
                 self.count("R9");
                 Some(String::new())
+            }
+            "matches" => {
+                // R24: `matches!(e, PAT)` -> `(match e { PAT => true, _ => false })` (the macro's definition; no guard form)
+                let text = mac.tokens.to_string();
+                let ts: Vec<proc_macro2::TokenTree> = mac.tokens.clone().into_iter().collect();
+                let comma = ts.iter().position(|t| matches!(t, proc_macro2::TokenTree::Punct(p) if p.as_char() == ','))?;
+                let scrut: TokenStream = ts[..comma].iter().cloned().collect();
+                let pat: TokenStream = ts[comma + 1..].iter().cloned().collect();
+                if text.contains(" if ") { self.err("unsupported-construct", "matches! with a guard".into()); return None; }
+                let e: Expr = syn::parse2(scrut).ok()?;
+                self.count("R24");
+                Some(format!("(match {} {{ {} => true, _ => false }})", self.render_expr(&e), pat))
             }
             _ => {
                 self.err("unsupported-construct", format!("macro {}! in body", name));
@@ -802,6 +815,50 @@ impl<'a, 'b, 'ast> Visit<'ast> for Collector<'a, 'b> {
                     visit::visit_expr(self, e);
                 }
             }
+            Expr::MethodCall(c) if c.method == "contains" && c.args.len() == 1 && matches!(&c.args[0], Expr::Reference(_)) && { let mut r = &*c.receiver; while let Expr::Paren(p) = r { r = &p.expr; } matches!(r, Expr::Range(rg) if rg.start.is_some() && rg.end.is_some() && matches!(rg.limits, syn::RangeLimits::HalfOpen(_))) } => {
+                // R23: `(a..b).contains(&x)` on an integer range -> `(a <= x && x < b)` (Range::contains, by definition)
+                let mut r = &*c.receiver; while let Expr::Paren(p) = r { r = &p.expr; }
+                if let (Expr::Range(rg), Expr::Reference(x)) = (r, &c.args[0]) {
+                    let (lo, hi, xv) = (rw.render_expr(rg.start.as_ref().unwrap()), rw.render_expr(rg.end.as_ref().unwrap()), rw.render_expr(&x.expr));
+                    let text = format!("({lo} <= {xv} && {xv} < {hi})");
+                    rw.count("R23");
+                    let sp = e.span().byte_range();
+                    self.edits.push((sp.start, sp.end, text));
+                }
+            }
+            Expr::MethodCall(c) if !rw.iter_model.is_empty() && c.method == "iter" && c.args.is_empty() && { let mut v = vec![]; Rw::leaf_names(&c.receiver, &mut v); v.last().map(|n| rw.iter_model.contains(n)).unwrap_or(false) } => {
+                // R22 (option iter_model=<names>): `X.iter()` on a Vec / array whose last path segment is listed -> `viter_(&X)`,
+                //   the overlay's iterator model of slice iteration (ghost element sequence + position; `enumerate` is a method of the model)
+                // a place expression is borrowed (auto-ref of the method call); a call result is already the reference
+                let amp = if matches!(&*c.receiver, Expr::MethodCall(_) | Expr::Call(_)) { "" } else { "&" };
+                let text = format!("viter_({amp}{})", rw.render_expr(&c.receiver));
+                rw.count("R22");
+                let sp = e.span().byte_range();
+                self.edits.push((sp.start, sp.end, text));
+            }
+            Expr::MethodCall(c) if rw.for_iter && c.method == "count" && c.args.is_empty() && matches!(&*c.receiver, Expr::MethodCall(m) if m.method == "filter" && m.args.len() == 1 && matches!(&m.args[0], Expr::Closure(cl) if cl.inputs.len() == 1)) => {
+                // R21 (option for_iter=1): `E.filter(|P| B).count()` -> the counting loop
+                //   `{ let mut it = E.into_iter(); let mut n = 0usize; loop { match it.next() { Some(x) => { let P = &x; if B { n += 1; } } None => break } } n }`
+                if let Expr::MethodCall(m) = &*c.receiver { if let Expr::Closure(cl) = &m.args[0] {
+                    let idx = rw.loop_idx.get();
+                    rw.loop_idx.set(idx + 1);
+                    let a = e.span().byte_range().start;
+                    let b = cl.body.span().byte_range().start;
+                    rw.loop_headers.borrow_mut().push(rw.src[a..b].split_whitespace().collect::<Vec<_>>().join(" "));
+                    let it = rw.render_expr(&m.receiver);
+                    let pat = &rw.src[cl.inputs[0].span().byte_range()];
+                    let body = rw.render_expr(&cl.body);
+                    let inv = rw.section(&format!("loop {idx}")).map(|t| mark(t)).unwrap_or_default();
+                    let before = rw.section(&format!("loop {idx} before")).map(|t| format!("proof {{ //@p\n{}\n}} //@p\n", mark(t))).unwrap_or_default();
+                    let end = rw.section(&format!("loop {idx} end")).map(|t| format!("proof {{ //@p\n{}\n}} //@p\n", mark(t))).unwrap_or_default();
+                    let after = rw.section(&format!("loop {idx} after")).map(|t| format!("proof {{ //@p\n{}\n}} //@p\n", mark(t))).unwrap_or_default();
+                    // Iterator::filter passes `&Self::Item` to the predicate
+                    let text = format!("({{ let mut __it{idx} = ({it}).into_iter(); let mut __cnt{idx} = 0usize;\n{before}loop\n{inv}\n{{ match __it{idx}.next() {{ Some(__item{idx}) => {{ let {pat} = &__item{idx}; if {body} {{ __cnt{idx} += 1; }}\n{end} }} None => {{ break; }} }} }}\n{after} __cnt{idx} }})");
+                    rw.count("R21");
+                    let sp = e.span().byte_range();
+                    self.edits.push((sp.start, sp.end, text));
+                } }
+            }
             Expr::MethodCall(c) if rw.for_iter && c.method == "all" && c.args.len() == 1 && matches!(&c.args[0], Expr::Closure(cl) if cl.inputs.len() == 1) => {
                 // R19 (option for_iter=1): `E.all(|P| B)` -> the short-circuiting loop Iterator::all performs,
                 //   `{ let mut it = E.into_iter(); let mut all = true; loop { match it.next() { Some(P) => { if !(B) { all = false; break; } } None => { break; } } } all }`
@@ -1029,6 +1086,7 @@ fn extract_body(repo: &Path, source: &str, d: &Directive, variant: &str) -> Resu
         fold_loops: d.opts.get("fold_loops").map(|v| v == "1").unwrap_or(false),
         for_range: d.opts.get("for_range").map(|v| v == "1").unwrap_or(false),
         for_iter: d.opts.get("for_iter").map(|v| v == "1").unwrap_or(false),
+        iter_model: d.opts.get("iter_model").map(|s| s.split(',').map(|x| x.to_string()).collect()).unwrap_or_default(),
         subst,
         sections: &d.sections,
         rules: RefCell::new(rules),
